@@ -36,6 +36,15 @@ def ratToFloat (r : Rat) : Float :=
   let f := f * Float.exp2 (Float.ofInt ((sn : Int) - (sd : Int)))
   if r.num < 0 then -f else f
 
+/-- scientific notation (Lean prints floats with six fixed decimals) -/
+def sci (r : Rat) : String :=
+  let f := ratToFloat r
+  if f == 0 then "0" else
+  let a := f.abs
+  let e := (Float.log10 a).floor
+  let m := f / Float.pow 10.0 e
+  s!"{m}e{e.toInt64}"
+
 def ratAbs (r : Rat) : Rat := if r < 0 then -r else r
 def ratMax (a b : Rat) : Rat := if a < b then b else a
 
@@ -130,8 +139,8 @@ def checkX (s : Sys) (tolS : Rat) (xs : Array Rat) : String :=
     | none => ("na", "na")
     | some r =>
       let z := vecOf r
-      (b2s (distCheck n A tol xp z), toString (ratToFloat ((List.range n).foldl (fun m i => ratMax m (ratAbs (xp i - z i))) 0)))
-  s!"x finite=1 nonneg={b2s (decide (negpart = 0))} negok={b2s (decide (negpart ≤ tolS))} kkt={b2s kkt} dist={dist} need={ratToFloat need} tolmax={ratToFloat tolmax} rel={ratToFloat rel} maxdiff={maxdiff} negpart={ratToFloat negpart}"
+      (b2s (distCheck n A tol xp z), sci ((List.range n).foldl (fun m i => ratMax m (ratAbs (xp i - z i))) 0))
+  s!"x finite=1 nonneg={b2s (decide (negpart = 0))} negok={b2s (decide (negpart ≤ tolS))} kkt={b2s kkt} dist={dist} need={sci need} tolmax={sci tolmax} rel={sci rel} maxdiff={maxdiff} negpart={sci negpart}"
 
 def showExit : B3Exit → String
   | .converged => "converged"
@@ -142,7 +151,7 @@ def runB3 (s : Sys) (tolS : Rat) (maxIter : Nat) : String :=
   let n := s.n
   let E := exactEnv n s.mat s.vec tolS maxIter (4 * n + 8)
   let (st, ex) := block3Run E (fun i => -(s.vec i))
-  let xA : Array Rat := ((List.range n).map st.x).toArray
+  let xA : Array Rat := tab n (at0 st.x)
   let x := vecOf xA
   let tol : Vec := fun _ => tolS
   let dist := match s.ref with
@@ -160,7 +169,7 @@ def step (st : Sys) (ws : List String) : Sys × String :=
       if s.n ≤ nref then
         let spd := spdCert s.n s.mat
         let ref := if spd then refNnls s.n s.mat s.vec else none
-        let refA := ref.map fun x => ((List.range s.n).map x).toArray
+        let refA := ref
         ({ s with ref := refA, refTried := true },
           s!"sys n={s.n} symm={b2s symm} spd={b2s spd} ref={b2s refA.isSome}")
       else (s, s!"sys n={s.n} symm={b2s symm} spd=na ref=na")
